@@ -266,7 +266,7 @@ func (fr *Frame) unop(x *ssa.UnOp) Value {
 			}
 			it.abortf("load through %s in %s", show(v), fr.fn)
 		}
-		return it.loadValue(p.C)
+		return it.applyAssume(it.loadValue(p.C))
 	case token.NOT:
 		switch b := v.(type) {
 		case KBool:
